@@ -77,6 +77,12 @@ var c11Queries = []c11q{
 	{"functions", "SELECT SETVAR('k', a), GETVAR('k') AS v, ARRAY(a, b) AS arr, UNWIND(`items[each].q`) AS flat, UNWIND(grid) AS cells, `mix=>grid` AS mixed FROM `{R}t`"},
 	{"functions", "SELECT FIRST(items) AS f, LAST(items) AS l, ELEMENTAT(items, 0) AS e FROM `{R}t` WHERE id = 0"},
 	{"dual", "SELECT `{R}t[0].a` AS a, 1 + 1 AS two FROM dual"},
+	// dual with an alias: the only row is the document itself
+	{"dual-alias", "SELECT 1 = 1 AS c, (SELECT id FROM `{R}t`) AS s FROM dual x"},
+	{"dual-alias", "SELECT CASE WHEN 2 > 1 THEN 'y' END AS c, EXISTS (SELECT id FROM `{R}t` WHERE a > 1) AS e, 1 IN (SELECT a FROM `{R}t`) AS i FROM dual AS d"},
+	{"dual-alias-union", "SELECT 1 < 2 AS c FROM dual x UNION ALL SELECT id > 0 AS c FROM `{R}t`"},
+	{"dual-alias-derived", "SELECT * FROM (SELECT 2 > 1 AS c, (SELECT COUNT(*) AS n FROM `{R}u`) AS n FROM dual y) AS d"},
+	{"dual-alias-where", "SELECT 'k' AS k FROM dual x WHERE 1 = 1 AND EXISTS (SELECT id FROM `{R}t`)"},
 }
 
 // fault templates: FAULT / RAISE_WHEN spliced into every clause position
@@ -302,7 +308,7 @@ func (p *c11) RunCase(i int) *core.CaseResult {
 
 func (p *c11) Meta() core.Meta {
 	return core.Meta{
-		Rule:        "one case per (query, Wrapped or not): 56 queries covering every clause kind (WHERE operator families, projections incl. star / FUSE / path selectors / pipes, ORDER BY / LIMIT, DISTINCT, GROUP BY / HAVING / aggregates, every join strategy incl. INTO and PARALLEL, UNION, CTEs incl. one that shadows a document key and WITH clauses below the outermost statement, joins without table aliases, derived tables, select-list / IN / EXISTS subqueries with <-, nested FROM and mix=>, ASYNC / SPINASYNC / ONCE / SETVAR functions, dual) and 35 fault templates with FAULT(x) / RAISE_WHEN / a type error in every clause position, incl. nested queries that fail while being built (derived table / CTE / union branch / join side / bad selector inside a select-list, IN or EXISTS subquery); on 5 documents (spare capacity with sentinel values in every array, empty, single row, a document whose arrays and rows are aliased); fault templates are run fault-free to count the N invocations of the fault point and then once per k in 1..N. Oracle: cycle-safe deep comparison of the caller's document (keys, values, lengths, spare capacity) with a snapshot taken before New. non-trivial = the query returned rows / a fault fired",
+		Rule:        "one case per (query, Wrapped or not): 61 queries covering every clause kind (WHERE operator families, projections incl. star / FUSE / path selectors / pipes, ORDER BY / LIMIT, DISTINCT, GROUP BY / HAVING / aggregates, every join strategy incl. INTO and PARALLEL, UNION, CTEs incl. one that shadows a document key and WITH clauses below the outermost statement, joins without table aliases, derived tables, select-list / IN / EXISTS subqueries with <-, nested FROM and mix=>, ASYNC / SPINASYNC / ONCE / SETVAR functions, dual with and without an alias) and 35 fault templates with FAULT(x) / RAISE_WHEN / a type error in every clause position, incl. nested queries that fail while being built (derived table / CTE / union branch / join side / bad selector inside a select-list, IN or EXISTS subquery); on 5 documents (spare capacity with sentinel values in every array, empty, single row, a document whose arrays and rows are aliased); fault templates are run fault-free to count the N invocations of the fault point and then once per k in 1..N. Oracle: cycle-safe deep comparison of the caller's document (keys, values, lengths, spare capacity) with a snapshot taken before New. non-trivial = the query returned rows / a fault fired",
 		Assumptions: []string{"the result may share structure with the input (rows are passed by reference); only writes by the library are violations", "ASYNC functions of the harness do not modify their arguments"},
 		Bounds:      map[string]any{"queries": len(c11Queries), "fault_templates": len(c11Faulted), "documents": len(p.docs)},
 		Exhaustive:  true,
